@@ -128,6 +128,18 @@ def inferred_types(tier: str) -> List[Tuple[Any, List[str]]]:
         vs = [V.ev(e) for e in c]
         for k in (0, 3):
             add(shrink_types([get_type(v, k) for v in vs], k), list(c))
+    # nested empties next to non-empty containers of the same outer kind, and nested unions next to empties
+    nested_empty = ["([],)", "({},)", "(set(),)", "[[]]", "[set()]", "{1: []}", "([], 0)", "{'a': []}", "[()]"]
+    partners = ["(0,)", "('a',)", "[[0]]", "[0]", "{1: [0]}", "(0, 0)", "([0],)", "({'a': 0},)", "({0},)", "[{0}]", "{'a': [0]}", "[(0,)]"]
+    nested_union = ["[{0}, 'a']", "[[0], 'a']", "[{1: 0}, 'a']", "({0}, 0)", "[{0}, [0]]", "{'a': {0}, 'b': 'a'}", "{1: {0}, 2: 'a'}"]
+    empties = ["set()", "[]", "{}", "()", "defaultdict(int)"]
+    for fam_a, fam_b in ((nested_empty, partners), (nested_union, empties)):
+        for a in fam_a:
+            for b in fam_b:
+                for order in ((a, b), (b, a)):
+                    vs = [V.ev(e) for e in order]
+                    for k in (0, 3):
+                        add(shrink_types([get_type(v, k) for v in vs], k), list(order))
     # large unions as the tracer produces them: six to eight observed shapes at one position
     many = ["0", "'a'", "None", "1.5", "Base()", "Derived()", "Other()", "()", "(0,)", "[]", "[0]", "{}", "len", "int"]
     for n in (6, 7, 8):
